@@ -44,6 +44,104 @@ class _Normaliser(ast.NodeTransformer):
         return self.generic_visit(node)
 
 
+def _inline_site(stmt, name):
+    """The single Load of `name` inside the simple statement `stmt` if a temporary holding an arbitrary expression may be
+    substituted there without changing the order of calls: the load is not under a conditional / deferred construct and
+    no call that is not one of its ancestors precedes it textually.  Returns (parent, field, index) or None."""
+    if isinstance(stmt, (ast.Assign, ast.Return, ast.Expr, ast.AugAssign)):
+        root = stmt.value
+    elif isinstance(stmt, ast.If):
+        root = stmt.test
+    else:
+        return None
+    if root is None:
+        return None
+    found = []
+
+    def walk(node, parent, field, idx, ancestors):
+        if isinstance(node, (ast.Lambda, ast.ListComp, ast.SetComp, ast.DictComp, ast.GeneratorExp, ast.IfExp, ast.BoolOp,
+                             ast.NamedExpr, ast.Yield, ast.YieldFrom, ast.Await)):
+            if any(isinstance(n, ast.Name) and n.id == name for n in ast.walk(node)):
+                found.append(None)
+            return
+        if isinstance(node, ast.Name) and node.id == name:
+            found.append((parent, field, idx, list(ancestors)) if isinstance(node.ctx, ast.Load) else None)
+            return
+        for f, val in ast.iter_fields(node):
+            if isinstance(val, list):
+                for i, c in enumerate(val):
+                    if isinstance(c, ast.AST):
+                        walk(c, node, f, i, ancestors + [node])
+            elif isinstance(val, ast.AST):
+                walk(val, node, f, None, ancestors + [node])
+    walk(root, stmt, "value" if not isinstance(stmt, ast.If) else "test", None, [])
+    if len(found) != 1 or found[0] is None:
+        return None
+    parent, field, idx, ancestors = found[0]
+    node = getattr(parent, field) if idx is None else getattr(parent, field)[idx]
+    pos = (node.lineno, node.col_offset)
+    for c in ast.walk(root):
+        if isinstance(c, ast.Call) and c not in ancestors and (c.lineno, c.col_offset) < pos:
+            return None
+    if isinstance(stmt, ast.Assign):
+        for t in stmt.targets:
+            if any(isinstance(c, ast.Call) for c in ast.walk(t)):
+                return None
+    return parent, field, idx
+
+
+def _fold_blocks(fn_node):
+    """Inside one function, two forms that mean the same are reduced to one, so that rules reading an expression see it
+    whole: a temporary that is assigned once and read once, by the very next statement (`x = E; return x`,
+    `tmp = b * c; y = a + tmp`), is substituted into that statement; and `if c: x = A else: x = B` becomes
+    `x = A if c else B`."""
+    stores, loads = {}, {}
+    for n in ast.walk(fn_node):
+        if isinstance(n, ast.Name):
+            d = loads if isinstance(n.ctx, ast.Load) else stores
+            d[n.id] = d.get(n.id, 0) + 1
+    params = {a.arg for a in fn_node.args.posonlyargs + fn_node.args.args + fn_node.args.kwonlyargs}
+    declared = {nm for n in ast.walk(fn_node) if isinstance(n, (ast.Global, ast.Nonlocal)) for nm in n.names}
+
+    def fold(stmts):
+        out = []
+        for st in stmts:
+            for field in ("body", "orelse", "finalbody"):
+                val = getattr(st, field, None)
+                if isinstance(val, list) and val and isinstance(val[0], ast.stmt) and \
+                        not isinstance(st, (ast.FunctionDef, ast.AsyncFunctionDef, ast.ClassDef)):
+                    setattr(st, field, fold(val))
+            if isinstance(st, ast.Try):
+                for hnd in st.handlers:
+                    hnd.body = fold(hnd.body)
+            if isinstance(st, ast.If) and len(st.body) == 1 and len(st.orelse) == 1 and \
+                    all(isinstance(b, ast.Assign) and len(b.targets) == 1 and isinstance(b.targets[0], ast.Name)
+                        for b in (st.body[0], st.orelse[0])) and st.body[0].targets[0].id == st.orelse[0].targets[0].id:
+                st = ast.copy_location(ast.Assign(
+                    targets=[st.body[0].targets[0]],
+                    value=ast.copy_location(ast.IfExp(test=st.test, body=st.body[0].value, orelse=st.orelse[0].value), st)), st)
+            while out and isinstance(out[-1], ast.Assign) and len(out[-1].targets) == 1 \
+                    and isinstance(out[-1].targets[0], ast.Name):
+                tmp = out[-1].targets[0].id
+                if stores.get(tmp, 0) != 1 or loads.get(tmp, 0) != 1 or tmp in params or tmp in declared \
+                        or any(isinstance(n, (ast.Yield, ast.YieldFrom, ast.Await)) for n in ast.walk(out[-1].value)):
+                    break
+                site = _inline_site(st, tmp)
+                if site is None:
+                    break
+                parent, field, idx = site
+                prev = out.pop()
+                if idx is None:
+                    setattr(parent, field, prev.value)
+                else:
+                    getattr(parent, field)[idx] = prev.value
+                if isinstance(st, ast.Return):
+                    st = ast.copy_location(ast.Return(value=st.value), prev)
+            out.append(st)
+        return out
+    fn_node.body = fold(fn_node.body)
+
+
 def _normalise(tree):
     loggers = set()
     for st in tree.body:
@@ -55,6 +153,9 @@ def _normalise(tree):
         if tgt and isinstance(val, ast.Call) and ast.unparse(val.func) in ("logging.getLogger", "getLogger"):
             loggers.add(tgt)
     tree = _Normaliser(loggers).visit(tree)
+    for n in ast.walk(tree):
+        if isinstance(n, (ast.FunctionDef, ast.AsyncFunctionDef)):
+            _fold_blocks(n)
     ast.fix_missing_locations(tree)
     return tree
 
